@@ -83,6 +83,37 @@ def _pool_frame(ctx, maxn):
             init.append([nm, Arr("int64", [BV(i % 2) for i in range(n)])])
     return n, names, init
 
+def order_clauses(prev, st, status, rep, label):
+    """'column names keep a stable order': the order a Python dict gives - an existing name keeps its place, a new name goes
+    last, removal leaves the others as they were; an assigned colnames list is the order afterwards.  Only stated where the
+    operation succeeded and its outcome is determined by the documentation; otherwise nothing is demanded of this step."""
+    if status != "ok": return []
+    o = st["op"]; got = rep["names"]; exp = None
+    if o in ("setitem", "setattr", "modify"):
+        exp = prev if st["name"] in prev else prev + [st["name"]]
+    elif o in ("delitem", "delattr", "pop"):
+        exp = [x for x in prev if x != st["name"]]
+    elif o == "popitem":
+        exp = prev[:-1]
+    elif o == "colnames":
+        if len(st["names"]) == len(prev) and len(set(st["names"])) == len(prev): exp = list(st["names"])
+    elif o in ("filter", "sort", "unique", "head", "slice", "drop_na", "copy", "deepcopy", "rbind"):
+        exp = prev
+    elif o == "select":
+        exp = list(st["names"])
+    elif o == "unselect":
+        exp = [x for x in prev if x not in st["names"]]
+    elif o == "rename":
+        if st["name"] in prev and (st["to"] not in prev or st["to"] == st["name"]): exp = [st["to"] if x == st["name"] else x for x in prev]
+    elif o == "cbind":
+        exp = prev if st["name"] in prev else prev + [st["name"]]       # cbind keeps the first column of a repeated name
+    elif o == "left_join":
+        return [(f"{label}: the left frame's columns come first, in their order", T(got[:len(prev)] == prev))]
+    elif o == "to_lod_back":
+        if rep["nrow"] > 0: exp = prev
+    if exp is None: return []
+    return [(f"{label}: column order is {exp}", T(got == exp))]
+
 class Step(Harness):
     """(b) one public operation from an arbitrary valid frame (names from a pool with awkward names)"""
     prop = "C01"; opname = "df_history"
@@ -119,6 +150,7 @@ class Step(Harness):
         if out["init"] != "ok": return cl
         for i, (o, status, rep) in enumerate(out["obs"]):
             cl += inv_clauses(rep, f"after {o}")
+            if i >= 1: cl += order_clauses(out["obs"][i - 1][2]["names"], inp["steps"][i - 1], status, rep, f"after {o}")
         return cl
 
 class History(Harness):
@@ -143,7 +175,7 @@ class History(Harness):
             elif o in ("delitem", "delattr", "pop"):
                 st["name"] = choice(f"nm{d}", ["a", "b", "z", "items"])
             elif o == "colnames":
-                st["names"] = list(choice(f"cn{d}", [("b", "a"), ("z",), ("a", "z"), ("items", "b")]))
+                st["names"] = list(choice(f"cn{d}", [("b", "a"), ("z",), ("a", "z"), ("items", "b"), ("z", "b"), ("a", "q", "z"), ("q", "b", "z")]))
             steps.append(st)
         return {"init": init, "steps": steps}
     def spec(self, inp, out):
@@ -151,6 +183,7 @@ class History(Harness):
         cl = []
         for i, (o, status, rep) in enumerate(out["obs"]):
             cl += inv_clauses(rep, f"step {i} ({o}, {status})")
+            if i >= 1: cl += order_clauses(out["obs"][i - 1][2]["names"], inp["steps"][i - 1], status, rep, f"step {i} ({o})")
         return cl
 
 def harnesses(tier):
